@@ -1099,6 +1099,7 @@ impl<T, L: Clone + Layout> TensorBase<Vec<T>, L> {
         L: MutLayout,
     {
         let shape_match = self.ndim() == other.ndim()
+            && axis < self.ndim()
             && (0..self.ndim()).all(|d| d == axis || self.size(d) == other.size(d));
         if !shape_match {
             return Err(ExpandError::ShapeMismatch);
@@ -1197,6 +1198,9 @@ impl<T, L: Clone + Layout> TensorBase<Vec<T>, L> {
     where
         L: MutLayout,
     {
+        if axis >= self.ndim() {
+            return None;
+        }
         let mut new_layout = self.layout.clone();
         new_layout.resize_dim(axis, new_size);
         let new_data_len =
